@@ -353,7 +353,7 @@ pub fn run_pool(id: usize, rng: &mut Rng) -> String {
 fn run_kind(id: usize, rng: &mut Rng, pool_view: bool) -> String {
     let burst = rng.chance(1, 4) || (pool_view && rng.chance(1, 2));
     let sc = if burst { gen_burst(rng) } else { ctl_queue::gen(rng) };
-    let cfg = Config { seed: rng.next(), p_timer: *rng.pick(&[0u64, 0, 30, 200]), p_spurious: *rng.pick(&[0u64, 0, 0, 40, 200]), p_preempt: *rng.pick(&[0u64, 0, 0, 100, 400]), max_steps: 2_000_000, ..Config::default() };
+    let cfg = Config { seed: rng.next(), p_timer: *rng.pick(&[0u64, 0, 30, 200]), p_spurious: *rng.pick(&[0u64, 0, 0, 40, 200]), p_preempt: *rng.pick(&[0u64, 0, 0, 100, 400]), max_steps: 400_000, ..Config::default() };
     let hist: Arc<StdMutex<Vec<Vec<String>>>> = Arc::new(StdMutex::new(sc.cons.iter().map(|_| vec![]).collect()));
     let h2 = hist.clone();
     let prods = sc.prods.clone();
@@ -504,7 +504,7 @@ fn run_kind(id: usize, rng: &mut Rng, pool_view: bool) -> String {
             if quiet { 1 } else { 0 },
             if rep.aborted { 1 } else { 0 },
             rep.clock
-        );
+        ) + &format!(" steps={}", rep.steps);
     }
     let labels = ctl_queue::map_labels(&rep);
     format!(
